@@ -4,6 +4,7 @@ CONSTANTS
   Obs = {1, 2}
   Vals = {0, 1, 2}
   Extra = {"g", "h", "k"}
+  DB = TRUE
   Dev = "none"
 CONSTRAINT HW
 INVARIANTS GetReflectsCurrent
